@@ -102,6 +102,11 @@ theorem readN_length (need : Nat) (s : Stream) (acc out : Bytes) (s' : Stream)
     · simp only [hz, if_false] at h
       cases c with
       | fail => simp at h
+      | dataErr bs =>
+        simp only at h
+        split at h
+        · simp at h; obtain ⟨rfl, _⟩ := h; simp; omega
+        · simp at h
       | data bs e =>
         simp only at h
         split at h
